@@ -12,7 +12,9 @@ BASE_ERR = Fr("1e-5")
 # (name, length factor, force factor) relative to the generator's cm / N-like values
 SYSTEMS = [("m,N", Fr("0.01"), Fr(1)), ("mm,N", Fr(10), Fr(1)), ("m,kN", Fr("0.01"), Fr("0.001")),
            ("in,lbf", Fr(100, 254), Fr("0.2248089431")), ("ft,lbf", Fr(100, 3048), Fr("0.2248089431")), ("cm,kN", Fr(1), Fr("0.001")),
-           ("mm,kN", Fr(10), Fr("0.001"))]
+           ("mm,kN", Fr(10), Fr("0.001")),
+           # far ends of the range: numbers that shrink under the code's absolute 1e-10 / six-decimal habits
+           ("100km,N", Fr("1e-7"), Fr(1)), ("cm,MN", Fr(1), Fr("1e-6")), ("km,GN", Fr("1e-5"), Fr("1e-9"))]
 
 
 def estr(x):
@@ -29,7 +31,8 @@ def gen(rng, tier):
             s.secs["rod"] = (Fr("0.2827"), Fr("0.00636"), Fr("0.00636"), Fr("0.0212"), Fr("0.0212"))
             rng.choice(s.bars)["sec"] = "rod"
         w = (g % 3 == 0)
-        picks = rng.sample(SYSTEMS, 2 if tier == "quick" else 4)
+        k = 2 if tier == "quick" else 4
+        picks = [SYSTEMS[(k * g + j) % len(SYSTEMS)] for j in range(k)]     # every system is used by some group of every run
         c = core.case_from_struct(s, Weight=w, Solve=True, Assemble=True, Error=estr(BASE_ERR))
         c.update(group=g, role="base")
         cases.append(c)
@@ -146,6 +149,8 @@ def oracle(c, o):
             continue
         if not M.solved(oA):
             continue
+        # the converted error option is the bound actually met in the other system as well
+        fails += ["%s: %s" % (what, f) for f in P.c05_solution(oB)[:2]]
         tA, tB = M.utol(oA), M.utol(oB)
         if tA is None or tB is None:
             continue
@@ -161,7 +166,7 @@ SPEC = {
     "corpus_filter": lambda c: False,
     "stages": [("F", lambda c, o, rng: solcore.stageF(c, o, rng) if c.get("role") == "units" else None, P.stageF_v, 2, 24)],
     "nontrivial": lambda c, o: M.solved(o) and c.get("role") == "units",
-    "rule": "groups: a solvable structure (as C01, cm / N-like magnitudes) and the same structure in 2 (quick) or 4 (thorough) of the unit systems m,N  mm,N  m,kN  cm,kN  mm,kN  in,lbf  ft,lbf "
+    "rule": "groups: a solvable structure (as C01, cm / N-like magnitudes) and the same structure in 2 (quick) or 4 (thorough) of the unit systems m,N  mm,N  m,kN  cm,kN  mm,kN  in,lbf  ft,lbf  100km,N  cm,MN  km,GN (each system used by some group of every run) "
             "(every length, area, inertia, modulus, density, force, distributed load and the error option converted; values that are not finite decimals written with 17 significant digits); own weight on every "
             "third group; every other group has a slender member (6 mm rod, I = 6.4e-11 m^4). Oracle: solves in one system iff in the other; translations x lam, rotations x 1, reactions and shear x phi, moments x phi lam, stresses x phi / lam^2 at every common position.",
     "assumptions": ["solver oracle as C01; conversion rounds non-decimal factors to 17 significant digits (relative 1e-9 allowance)",
